@@ -1,9 +1,325 @@
 package main
 
-import "verif/harness/internal/hx"
+import (
+	"fmt"
+	"math/rand"
+	"reflect"
+	"runtime"
+	"sort"
+	"strings"
+	"sync"
+	"time"
+
+	"github.com/drshriveer/gtools/gconfig"
+	"verif/harness/internal/hx"
+)
 
 type cacheState struct{}
 
-func (g *gcImpl) execCache(ws []string) (string, bool) { return "", false }
+type pairT struct {
+	A int    `yaml:"a"`
+	B string `yaml:"b"`
+}
 
-func runC10(f *hx.Flags) {}
+// canonical rendering of a typed result: dynamic type and value (pointers dereferenced, maps in
+// key order as fmt prints them)
+func renderTyped(v any) string {
+	if v == nil {
+		return "ok:nil"
+	}
+	rv := reflect.ValueOf(v)
+	if rv.Kind() == reflect.Pointer {
+		if rv.IsNil() {
+			return fmt.Sprintf("ok:%T:nil", v)
+		}
+		return fmt.Sprintf("ok:%T:&%s", v, esc(fmt.Sprintf("%+v", rv.Elem().Interface())))
+	}
+	return fmt.Sprintf("ok:%T:%s", v, esc(fmt.Sprintf("%+v", v)))
+}
+
+func doReq[T any](cfg *gconfig.Config, op, key string) (out string) {
+	defer func() {
+		if r := recover(); r != nil {
+			if op == "must" {
+				_, isRT := r.(runtime.Error)
+				if _, isErr := r.(error); isErr && !isRT {
+					out = "err" // MustGet reporting an error
+					return
+				}
+			}
+			out = "panic"
+		}
+	}()
+	switch op {
+	case "get":
+		v, err := gconfig.Get[T](cfg, key)
+		if err != nil {
+			return "err"
+		}
+		return renderTyped(any(v))
+	case "must":
+		return renderTyped(any(gconfig.MustGet[T](cfg, key)))
+	case "ordef":
+		var def T
+		v := gconfig.GetOrDefault[T](cfg, key, def)
+		// GetOrDefault hides the error: compare through Get's classification
+		if _, err := gconfig.Get[T](cfg, key); err != nil {
+			return "err"
+		}
+		return renderTyped(any(v))
+	}
+	return "bad-op"
+}
+
+var typeTable = map[string]func(cfg *gconfig.Config, op, key string) string{
+	"int":            doReq[int],
+	"int8":           doReq[int8],
+	"int16":          doReq[int16],
+	"int32":          doReq[int32],
+	"int64":          doReq[int64],
+	"uint":           doReq[uint],
+	"uint8":          doReq[uint8],
+	"uint16":         doReq[uint16],
+	"uint32":         doReq[uint32],
+	"uint64":         doReq[uint64],
+	"float32":        doReq[float32],
+	"float64":        doReq[float64],
+	"string":         doReq[string],
+	"bool":           doReq[bool],
+	"*int":           doReq[*int],
+	"*string":        doReq[*string],
+	"[]int":          doReq[[]int],
+	"[]string":       doReq[[]string],
+	"[]any":          doReq[[]any],
+	"map[string]int": doReq[map[string]int],
+	"map[string]any": doReq[map[string]any],
+	"pair":           doReq[pairT],
+	"*pair":          doReq[*pairT],
+	"duration":       doReq[time.Duration],
+	"any":            doReq[any],
+}
+
+// %T of the zero value of each result type (what the pinned commit appended to the key)
+var goTypeName = map[string]string{
+	"int": "int", "int8": "int8", "int16": "int16", "int32": "int32", "int64": "int64",
+	"uint": "uint", "uint8": "uint8", "uint16": "uint16", "uint32": "uint32", "uint64": "uint64",
+	"float32": "float32", "float64": "float64", "string": "string", "bool": "bool",
+	"*int": "*int", "*string": "*string", "[]int": "[]int", "[]string": "[]string", "[]any": "[]interface {}",
+	"map[string]int": "map[string]int", "map[string]any": "map[string]interface {}",
+	"pair": "main.pairT", "*pair": "*main.pairT", "duration": "time.Duration", "any": "<nil>",
+}
+
+// collidingPairs: all ((key1,type1),(key2,type2)) over c10Keys x types with
+// key1+%T1 == key2+%T2 although (key1,type1) != (key2,type2)
+func collidingPairs() [][4]string {
+	by := map[string][][2]string{}
+	for _, k := range c10Keys {
+		for _, t := range typeNames {
+			by[k+goTypeName[t]] = append(by[k+goTypeName[t]], [2]string{k, t})
+		}
+	}
+	var out [][4]string
+	var ks []string
+	for k := range by {
+		ks = append(ks, k)
+	}
+	sort.Strings(ks)
+	for _, k := range ks {
+		g := by[k]
+		for i := 0; i < len(g); i++ {
+			for j := 0; j < len(g); j++ {
+				if i != j {
+					out = append(out, [4]string{g[i][0], g[i][1], g[j][0], g[j][1]})
+				}
+			}
+		}
+	}
+	return out
+}
+
+var typeNames = func() []string {
+	var n []string
+	for k := range typeTable {
+		n = append(n, k)
+	}
+	sort.Strings(n)
+	return n
+}()
+
+// keys include prefixes/extensions of each other and keys ending in fragments of Go type names
+// (so that `key + "%T"` collides for different (key, type) pairs)
+var c10Docs = []string{
+	`{ a i:5 au i:7 aui i:9 a* i:11 a[] [ i:1 i:2 ] amap[string] { x i:1 } s s:str n n b b:t l [ s:x s:y ] m { x i:1 y i:2 } d s:1m0s f s:1.5 p { a i:3 b s:bb } x { y { z i:42 } y2 n } amain.pairT i:1 atime. s:1s afloat i:3 a[]interface%20 [ i:1 ] }`,
+	`{ a s:hello au s:7 aui n a* [ ] a[] { a i:1 } s i:12 n s:null b s:true l { x [ i:1 ] } m [ { x i:1 } ] d i:90 p [ i:1 ] x { y s:deep } ax i:1 a.x i:2 }`,
+	`{ a { x i:1 au i:2 } au { int8 i:3 } s s: n n b b:f l [ ] m { } d s:2h p { a s:notint b i:5 } u i:-1 big i:4000000000 }`,
+}
+
+var c10Keys = []string{"a", "au", "aui", "a*", "a[]", "amap[string]", "s", "n", "b", "l", "m", "d", "f", "p", "x", "x.y", "x.y.z", "x.y2", "a.x", "a.au", "au.int8", "amain.pairT", "a*", "atime.", "u", "big", "zz", "ax", "", "afloat", "a[]interface "}
+
+// wantOf: the result of one request on a FRESH Config built from the document (memoized per
+// (document, op, key, type); every entry is computed on its own new Config).
+var (
+	wantMu   sync.Mutex
+	wantMemo = map[string]string{}
+)
+
+func wantOf(docBytes []byte, op, key, ty string) string {
+	k := string(docBytes) + "\x00" + op + "\x00" + key + "\x00" + ty
+	wantMu.Lock()
+	w, ok := wantMemo[k]
+	wantMu.Unlock()
+	if ok {
+		return w
+	}
+	c, err := gconfig.NewBuilder().FromBytes(docBytes)
+	if err != nil {
+		return "noconfig"
+	}
+	w = typeTable[ty](c, op, key)
+	wantMu.Lock()
+	wantMemo[k] = w
+	wantMu.Unlock()
+	return w
+}
+
+func (g *gcImpl) execCache(ws []string) (string, bool) {
+	if len(ws) >= 2 && ws[1] == "req" {
+		// gc req <op> <key> <type> <fresh>
+		if len(ws) != 6 || g.cfg == nil {
+			return "bad-op", true
+		}
+		f, ok := typeTable[ws[4]]
+		if !ok {
+			return "bad-op", true
+		}
+		// a request that never returns (e.g. a memo bucket left locked by an earlier panic inside
+		// the fill callback) is reported as "hang" instead of stopping the whole run
+		done := make(chan string, 1)
+		go func() { done <- f(g.cfg, ws[2], unesc(ws[3])) }()
+		select {
+		case out := <-done:
+			return out, true
+		case <-time.After(3 * time.Second):
+			return "hang", true
+		}
+	}
+	if len(ws) == 4 && ws[1] == "conc" {
+		// gc conc <seed> <goroutines>: concurrent mix on the case's config, each result compared
+		// with the same request on a fresh config
+		if g.cfg == nil {
+			return "bad-op", true
+		}
+		var seed int64
+		var n int
+		fmt.Sscan(ws[2], &seed)
+		fmt.Sscan(ws[3], &n)
+		var mu sync.Mutex
+		bad := ""
+		var wg sync.WaitGroup
+		for i := 0; i < n; i++ {
+			wg.Add(1)
+			go func(i int) {
+				defer wg.Done()
+				rng := rand.New(rand.NewSource(seed*1000 + int64(i)))
+				for j := 0; j < 60; j++ {
+					key := c10Keys[rng.Intn(len(c10Keys))]
+					ty := typeNames[rng.Intn(len(typeNames))]
+					op := []string{"get", "must", "ordef"}[rng.Intn(3)]
+					got := typeTable[ty](g.cfg, op, key)
+					want := wantOf(g.bytes, op, key, ty)
+					if got != want {
+						mu.Lock()
+						if bad == "" {
+							bad = fmt.Sprintf("mismatch:%s:%s:%s:got=%s:want=%s", op, esc(key), ty, got, want)
+						}
+						mu.Unlock()
+					}
+				}
+			}(i)
+		}
+		wg.Wait()
+		if bad != "" {
+			return bad, true
+		}
+		return "ok", true
+	}
+	return "", false
+}
+
+func runC10(f *hx.Flags) {
+	impl := &gcImpl{}
+	r := hx.NewRunner(f, "h-gconfig", impl, "request histories (<=200 requests of Get/MustGet/GetOrDefault over 29 keys incl. prefixes/extensions of each other and keys ending in fragments of Go type names, 26 result types: sized ints, floats, string, bool, pointers, slices, maps, structs, time.Duration, any, error) on three documents with scalars, nulls, lists and maps; every request's result (value with dynamic type / error / panic) is compared with the same request on a FRESH Config built from the same bytes (passed to the Lean cache model as the conversion oracle); plus concurrent mixes of 16 goroutines. non-trivial: a history with at least one repeated (key,type) and one pair of colliding concatenations; distinct by request lines")
+	r.KeyOf = func(d *hx.Disagreement) string {
+		ws := strings.Fields(d.Request)
+		if len(ws) >= 6 && ws[1] == "req" {
+			cls := "differs"
+			if d.Impl == "panic" {
+				cls = "panic"
+			}
+			return "C10:req:" + cls
+		}
+		return "C10:" + ws[1]
+	}
+	if r.HandleReplay() {
+		return
+	}
+	r.RunCorpus()
+	n := r.N(600)
+	if f.Tier == "thorough" {
+		n = r.N(40000)
+	}
+	collisions := collidingPairs()
+	r.Res.Extra["colliding_concatenation_pairs"] = len(collisions)
+	for i := 0; i < n; i++ {
+		doc := c10Docs[r.Rng.Intn(len(c10Docs))]
+		lines := []string{"case gc", "gc load " + doc}
+		// the oracle: the same request on a fresh config
+		fresh := &gcImpl{}
+		fresh.Exec("case gc")
+		fresh.Exec("gc load " + doc)
+		L := 1 + r.Rng.Intn(200)
+		if r.Rng.Intn(3) == 0 {
+			L = 1 + r.Rng.Intn(12)
+		}
+		// bias towards a small working set so that hits and collisions happen
+		nk, nt := 2+r.Rng.Intn(8), 2+r.Rng.Intn(8)
+		ks := make([]string, nk)
+		for j := range ks {
+			ks[j] = c10Keys[r.Rng.Intn(len(c10Keys))]
+		}
+		ts := make([]string, nt)
+		for j := range ts {
+			ts[j] = typeNames[r.Rng.Intn(len(typeNames))]
+		}
+		seen := map[string]bool{}
+		repeated := false
+		var pending [][2]string
+		for j := 0; j < L; j++ {
+			key, ty := ks[r.Rng.Intn(nk)], ts[r.Rng.Intn(nt)]
+			if len(pending) > 0 && r.Rng.Intn(3) == 0 {
+				key, ty = pending[0][0], pending[0][1]
+				pending = pending[1:]
+			} else if r.Rng.Intn(10) == 0 {
+				// two requests whose key+%T concatenations coincide
+				cp := collisions[r.Rng.Intn(len(collisions))]
+				key, ty = cp[0], cp[1]
+				pending = append(pending, [2]string{cp[2], cp[3]})
+			}
+			if key == "" {
+				key = "s"
+			}
+			op := []string{"get", "must", "ordef"}[r.Rng.Intn(3)]
+			want := wantOf(fresh.bytes, op, key, ty)
+			lines = append(lines, "gc req "+op+" "+esc(key)+" "+ty+" "+want)
+			if seen[key+"|"+ty] {
+				repeated = true
+			}
+			seen[key+"|"+ty] = true
+		}
+		if r.Rng.Intn(4) == 0 {
+			lines = append(lines, fmt.Sprintf("gc conc %d 16", r.Rng.Intn(1000)))
+		}
+		r.Add(hx.Case{Domain: true, Nontrivial: repeated, Lines: lines, Tags: []string{fmt.Sprintf("len<=%d", (L/50+1)*50)}})
+	}
+	r.Finish()
+}
